@@ -215,6 +215,21 @@ def tlc_check(ctx, module, cfg, workers=None, timeout=1800, must_cover=(), cover
     return distinct, generated
 
 
+def tlc_expect_violation(ctx, module, cfg, invariant, workers=4, timeout=900):
+    """Design-level negative control: the configuration switches ONE modelled design decision to the wrong alternative
+    (save gengo.sum only when the mapping changed, decide a generator's file before its deferred callbacks ran, let the root
+    package's hash cover gengo.sum, drop the numbered fall-back name, drop the package-scope filter) and TLC must answer with a
+    counterexample to the named invariant. If it does not, the specification cannot tell the two designs apart - that is a
+    vacuous specification (infrastructure error), never a violation of the code."""
+    rc, out, wall = _tlc(ctx, module, cfg, workers, timeout=timeout)
+    if ("Invariant %s is violated" % invariant) not in out:
+        raise Infra("design demo %s/%s: TLC did not report a counterexample to %s:\n%s" % (module, cfg, invariant, "\n".join(out.splitlines()[-25:])))
+    distinct, generated = _stats(out)
+    ctx.tlc_runs.append({"loop": "A-negative-control", "module": module, "cfg": cfg, "expected_counterexample_to": invariant, "found": True,
+                         "distinct": distinct, "generated": generated, "wall_s": round(wall, 1)})
+    log("[loopA] %s/%s: counterexample to %s found as expected (wrong design alternative), %.1fs" % (module, cfg, invariant, wall))
+
+
 def tlaps_prove(ctx, relpath, timeout=900):
     """Machine-checks a TLAPS proof module (unbounded design-level lemma). A failing proof is a broken
     specification (infrastructure error), never a violation of the code."""
